@@ -77,6 +77,20 @@ class LockProxy:
         return False
 
 
+class AccessLockProxy(LockProxy):
+    """the module's accessLock: only a refused non-blocking acquisition is an event (check_connection does not wait for a
+    thread that is connecting)"""
+
+    def acquire(self, *a, **k):
+        ok = self.lock.acquire(*a, **k)
+        if not ok:
+            self.log.add('busy')
+        return ok
+
+    def release(self):
+        self.lock.release()
+
+
 class TimeProxy:
     """stands in for the `time` module inside frappy.io: sleeps and clock reads are logged"""
 
@@ -129,19 +143,60 @@ def run_case(case, policy=None, max_steps=20000):
     tproxy = TimeProxy(s.time, log)
     bytes_mode = case['mode'] == 'bytes'
     kinds = {}
+    in_ident = set()
     with s.patched(frappy.io, threading=s.threading, time=tproxy), \
             s.patched(frappy.modulebase, threading=s.threading, time=s.time, mkthread=s.mkthread), \
             s.patched(frappy.lib.asynconn, time=s.time):
         dev = fakes.Device(s, log, 'dev', case['device'])
+        dev.send_kind = lambda: 'isend' if log.who() in in_ident else 'send'
         try:
-            cfg = {'cls': frappy.io.BytesIO if bytes_mode else frappy.io.StringIO, 'description': 'x', 'uri': dev.uri}
+            cls = frappy.io.BytesIO if bytes_mode else frappy.io.StringIO
+            if bytes_mode and case.get('varlen'):
+                class VarLen(cls):
+                    """replies of variable length, the documented way: a header of fixed length tells how many bytes
+                    follow (its last byte, a digit), getFullReply fetches them with readBytes"""
+
+                    def getFullReply(self, request, replyheader):
+                        tail = replyheader[-1:]
+                        if tail.isdigit() and int(tail) > 0:
+                            log.sync('more')
+                            log.add('more', n=int(tail))
+                            return replyheader + self.readBytes(int(tail))
+                        return replyheader
+                cls = VarLen
+            cfg = {'cls': cls, 'description': 'x', 'uri': dev.uri}
             for k, v in case['io'].items():
                 cfg[k] = {'value': v}
-            if case.get('ident'):      # hand experiments only: checkHWIdent is not modelled
-                cfg['identification'] = [('ID', 'id.*')]
+            if case.get('ident'):      # [[command, prefix of the expected reply, length of the reply (bytes mode)], ...]
+                if bytes_mode:
+                    cfg['identification'] = [(' '.join(c), ' '.join(list(pfx) + ['??'] * (n - len(pfx))))
+                                             for c, pfx, n in case['ident']]
+                else:
+                    import re
+                    cfg['identification'] = [(c, re.escape(pfx) + '.*') for c, pfx, n in case['ident']]
+                    if case.get('ident_retry') is False:
+                        cfg['retry_first_idn'] = False
             node = Node({'io': cfg})
             io = node.modules['io']
             io._lock = LockProxy(io._lock, log)
+            io.accessLock = AccessLockProxy(io.accessLock, log)
+            if case.get('ident'):
+                real_ident = io.checkHWIdent
+
+                def check_ident():      # sends made in here are identification requests; its outcome is an event
+                    me = log.who()
+                    in_ident.add(me)
+                    try:
+                        real_ident()
+                    except BaseException:
+                        in_ident.discard(me)
+                        log.sync('idend')
+                        log.add('idend', ok=False)
+                        raise
+                    in_ident.discard(me)
+                    log.sync('idend')
+                    log.add('idend', ok=True)
+                io.checkHWIdent = check_ident
 
             def on_isconn(v, err=None):
                 if err is None:
@@ -197,6 +252,9 @@ def run_case(case, policy=None, max_steps=20000):
                     if op[0] == 'sleep':
                         s.time.sleep(op[1])
                         continue
+                    if op[0] == 'until':      # absolute virtual time (since the start of the run): callers can meet
+                        s.time.sleep(max(0.0, t_start + op[1] - s.now))
+                        continue
                     kinds[log.who()] = op[0]
                     log.sync('call')
                     log.add('call', i=i, op=op)
@@ -208,6 +266,7 @@ def run_case(case, policy=None, max_steps=20000):
                     log.add('ret', i=i, r=r)
                     kinds[log.who()] = None
 
+            t_start = s.now
             for n, ops in enumerate(case['callers']):
                 s.spawn(f'c{n}', caller, (ops,))
             p = case.get('poller')
@@ -312,12 +371,16 @@ def model_events(case, events):
             out.append([t, 'isconn', c, ev['v']])
         elif e == 'cb':
             out.append([t, 'cb', c, cbs.index(ev['name']) if ev['name'] in cbs else CB_TRIGGER, ev['keep']])
-        elif e in ('acq', 'rel', 'wake', 'flush', 'hclose'):
+        elif e in ('acq', 'rel', 'wake', 'flush', 'hclose', 'busy'):
             out.append([t, e, c])
         elif e == 'slp':
             out.append([t, 'slp', c, ev['d']])
-        elif e == 'send':
-            out.append([t, 'send', c, ev['conn'], ev['n'], ev['data']])
+        elif e in ('send', 'isend'):
+            out.append([t, e, c, ev['conn'], ev['n'], ev['data']])
+        elif e == 'more':
+            out.append([t, 'more', c, ev['n']])
+        elif e == 'idend':
+            out.append([t, 'idend', c, ev['ok']])
         elif e == 'recv':
             out.append([t, 'recv', c, ev['out']] + ([ev['data']] if ev['out'] == 'data' else []))
         elif e == 'arrive':
@@ -385,14 +448,27 @@ def gen_frame(rng):
 CMDS = ['A', 'B', 'C', 'D', 'E']
 
 
-def gen_device(rng, bm, faults):
+IDENT_CMDS = ['ID', 'IV']
+
+
+def gen_device(rng, bm, faults, varlen=False, ident=None):
     cmds = {}
     for c in CMDS:
         delay = rng.choice([0, 0, 0.1, 0.3, 0.7])
-        reply = (c.lower() + '{n}xyz')[:4] if bm else c.lower() + '{n}' + rng.choice(['', '', ' ok', ';' * rng.randint(1, 3)])
+        if bm and varlen:       # header (2 bytes: letter, number of bytes that follow) + body; a body longer than announced
+            k = rng.choice([0, 1, 2, 3, 3])     # leaves garbage behind, a shorter one lets readBytes run into the time-out
+            reply = c.lower() + str(k) + ('{n}yz' if rng.random() < 0.85 else '{n}')
+        else:
+            reply = c.lower() + '{n}xy' if bm else c.lower() + '{n}' + rng.choice(['', '', ' ok', ';' * rng.randint(1, 3)])
         cmds[c] = {'reply': reply, 'delay': delay, 'chunks': [rng.randint(1, 3) for _ in range(rng.choice([0, 0, 1, 2, 4]))],
                    'gap': rng.choice([0, 0, 0.05, 0.4])}
     cmds['W'] = {'reply': None}
+    for c, pfx, n in ident or ():
+        good = pfx + '{n}' + 'xyz'[:n - len(pfx) - 1] if bm else pfx + '{n}'      # (bytes: one byte too many from send 10 on)
+        bad = '?' * len(pfx) + '{n}' + 'xyz'[:n - len(pfx) - 1] if bm else '??{n}'
+        r = rng.random()        # mostly the expected device; sometimes garbled once, another device, or no answer at all
+        reply = good if r < 0.6 else [bad, good] if r < 0.75 else [good, bad, good] if r < 0.85 else bad if r < 0.93 else None
+        cmds[c] = {'reply': reply, 'delay': rng.choice([0, 0, 0.1, 0.4]), 'chunks': [rng.randint(1, 2) for _ in range(rng.choice([0, 0, 1]))]}
     dev = {'eol': '' if bm else '\n', 'cmds': cmds, 'default': None}
     if 'late' in faults:
         cmds[rng.choice(CMDS)]['delay'] = rng.choice([2.2, 2.6, 3.5])
@@ -412,21 +488,28 @@ def gen_device(rng, bm, faults):
     return dev
 
 
-def gen_ops(rng, bm, n):
+GRID = [0.0, 0.0, 1.0, 2.0, 3.2, 3.2, 3.5, 5.0, 6.4, 6.4, 7.0, 9.6]
+
+
+def gen_ops(rng, bm, n, varlen=False, aligned=False):
     ops = []
-    for _ in range(n):
-        if rng.random() < 0.5:
+    tgrid = sorted(rng.sample(range(len(GRID)), min(n, len(GRID))))
+    for j in range(n):
+        if aligned:         # callers (and the device's timed close) meet at the same virtual instants
+            ops.append(['until', GRID[tgrid[j]]])
+        elif rng.random() < 0.5:
             ops.append(['sleep', rng.choice([0.1, 0.5, 1.0, 2.5, 3.1])])
         r = rng.random()
         c = rng.choice(CMDS)
         if r < 0.5:
-            ops.append(['comm', c, 4] if bm else ['comm', c])
+            ops.append(['comm', c, 2 if varlen else 4] if bm else ['comm', c])
         elif r < 0.65 and not bm:
             ops.append(['write', 'W'])
         else:
             k = rng.randint(1, 3)
             if bm:
-                ops.append(['multi', [[rng.choice(CMDS), rng.choice([4, 4, 2, 0]), rng.choice([0, 0.2, 0.5])] for _ in range(k)]])
+                ops.append(['multi', [[rng.choice(CMDS), 2 if varlen else rng.choice([4, 4, 2, 0]), rng.choice([0, 0.2, 0.5])]
+                                      for _ in range(k)]])
             else:
                 rq = [[rng.choice(CMDS), rng.random() < 0.75, rng.choice([0, 0.2, 0.5])] for _ in range(k)]
                 ops.append(['multi', [['W' if not x else c, x, d] for c, x, d in rq]])
@@ -442,13 +525,29 @@ def gen_case(rng):
     if 'close' in faults and rng.random() < 0.5:
         faults.add('refuse')
     interval = rng.choice([3, 3, 5])
+    varlen = bm and rng.random() < 0.5
+    aligned = rng.random() < 0.35
+    ident = None
+    if rng.random() < 0.35:
+        ident = [[c, 'id' if c == 'ID' else 'v', 4] for c in IDENT_CMDS[:rng.choice([1, 1, 2])]]
     case = {'mode': 'bytes' if bm else 'string',
             'io': {'timeout': rng.choice([2, 2, 1.5]), 'wait_before': rng.choice([0, 0, 0.05]), 'pollinterval': interval},
-            'device': gen_device(rng, bm, faults),
-            'callers': [gen_ops(rng, bm, rng.randint(1, 3)) for _ in range(rng.randint(2, 4))],
+            'device': gen_device(rng, bm, faults, varlen, ident),
+            'callers': [gen_ops(rng, bm, rng.randint(1, 3), varlen, aligned) for _ in range(rng.randint(2, 4))],
             'poller': {'interval': interval, 'count': rng.randint(1, 3)} if rng.random() < 0.6 else None,
             'callbacks': rng.choice([[], ['cb0'], ['cb0', 'once1'], ['once0', 'cb1', 'cb2']]),
             'faults': sorted(faults)}
+    if varlen:
+        case['varlen'] = True
+    if ident:
+        case['ident'] = ident
+        if not bm and rng.random() < 0.3:
+            case['ident_retry'] = False
+    if aligned:
+        case['aligned'] = True
+        cl = case['device'].get('close')
+        if cl and 'at' in cl:
+            cl['at'] = rng.choice(GRID[2:])
     return case
 
 
@@ -482,7 +581,68 @@ def catalogue():
     # silence
     cat.append({'mode': 'bytes', 'io': io, 'device': {'eol': '', 'default': {'reply': 'ab'}, 'cmds': {'S': {'reply': None}}},
                 'callers': [[['comm', 'S', 2]], [['comm', 'A', 2], ['multi', [['S', 2, 0.1], ['A', 2, 0.1]]]]], 'callbacks': []})
+    # a second caller enters exactly while the first one detects the disconnect and closes (reconnect interval elapsed)
+    cat.append({'mode': 'string', 'io': io, 'device': {'default': dflt, 'close': {'send': 1, 'phase': 'before'}},
+                'callers': [[['comm', 'A'], ['until', 3.5], ['comm', 'B'], ['until', 7.0], ['comm', 'C']],
+                            [['until', 3.5], ['comm', 'D'], ['until', 7.0], ['comm', 'E']]],
+                'poller': {'interval': 3, 'count': 3}, 'callbacks': ['cb0']})
+    # replies of variable length (getFullReply reads the rest): two callers at the same instant, the rest arrives later
+    cat.append({'mode': 'bytes', 'varlen': True, 'io': io,
+                'device': {'eol': '', 'default': {'reply': 'r3{n}yz', 'delay': 0.1, 'chunks': [2, 1], 'gap': 0.05}},
+                'callers': [[['comm', 'A', 2], ['comm', 'B', 2]], [['comm', 'C', 2]], [['multi', [['D', 2, 0.1], ['E', 2, 0]]]]],
+                'callbacks': []})
+    # identification on (re)connect: clean disconnect, reconnect by the poller and on demand, callbacks
+    cat.append({'mode': 'string', 'io': io, 'ident': [['ID', 'id', 4]],
+                'device': {'default': dflt, 'cmds': {'ID': {'reply': 'id{n}', 'delay': 0.1}}, 'close': {'at': 1.0}, 'close2': {'at': 2.0}},
+                'callers': [[['comm', 'A'], ['sleep', 1.5], ['comm', 'B'], ['until', 3.5], ['comm', 'C'], ['until', 6.0], ['comm', 'D'],
+                             ['until', 7.0], ['comm', 'E']]],
+                'poller': {'interval': 3, 'count': 3}, 'callbacks': ['cb0', 'once1']})
+    # identification garbled once (retry of the first request), and a wrong device (the reconnect never succeeds)
+    cat.append({'mode': 'string', 'io': io, 'ident': [['ID', 'id', 4], ['IV', 'v', 4]],
+                'device': {'default': dflt, 'cmds': {'ID': {'reply': ['??', 'id{n}', 'id{n}', '??', 'id{n}']}, 'IV': {'reply': ['v1', 'w', 'v2']}},
+                           'close': {'at': 1.0}},
+                'callers': [[['comm', 'A'], ['until', 3.5], ['comm', 'B'], ['until', 7.0], ['comm', 'C'], ['until', 10.5], ['comm', 'D']]],
+                'poller': {'interval': 3, 'count': 3}, 'callbacks': ['cb0']})
+    cat.append({'mode': 'bytes', 'io': io, 'ident': [['ID', 'id', 4]],
+                'device': {'eol': '', 'default': {'reply': 'r{n}xy', 'delay': 0.1}, 'cmds': {'ID': {'reply': ['id{n}x', 'xx{n}y', 'id{n}x']}},
+                           'close': {'send': 2, 'phase': 'after_cmd'}},
+                'callers': [[['comm', 'A', 4], ['until', 3.5], ['comm', 'B', 4], ['until', 7.0], ['comm', 'C', 4], ['until', 10.5], ['comm', 'D', 4]],
+                            [['until', 3.5], ['comm', 'E', 4]]],
+                'poller': {'interval': 3, 'count': 3}, 'callbacks': ['cb0']})
     return cat
+
+
+def modelled(case):
+    """scenario classes the transaction model covers (the others are judged by the monitors only)"""
+    return not case.get('ident') and not case.get('varlen')
+
+
+def explore_levels(make_run, max_preemptions, max_runs, rng):
+    """schedules by number of preemptions: the default schedule, then ALL schedules with one preemption (in random order),
+    then those with two, ... until max_runs — a race that needs one switch at the right place is found before the budget
+    is spent on deep variations of the first few schedules"""
+    from vlib.sched import ReplayThenDefault
+    level = [[]]
+    runs = 0
+    seen = set()
+    for depth in range(max_preemptions + 1):
+        nxt = []
+        rng.shuffle(level)
+        for prefix in level:
+            if runs >= max_runs:
+                return
+            if tuple(prefix) in seen:
+                continue
+            seen.add(tuple(prefix))
+            sched, obs = make_run(ReplayThenDefault(prefix))
+            runs += 1
+            yield prefix, sched, obs
+            if depth < max_preemptions:
+                for pos in range(len(prefix), len(sched.choices)):
+                    n, chosen, default = sched.choices[pos]
+                    base = [sched.choices[i][1] for i in range(pos)]
+                    nxt.extend(base + [alt] for alt in range(n) if alt != chosen)
+        level = nxt
 
 
 def realpoll_case(rng):
@@ -494,8 +654,8 @@ def realpoll_case(rng):
 
 
 # ----------------------------------------------------------------------------------------
-CLAUSES = ['multicomm_atomic', 'delays_honoured', 'stale_discarded', 'reply_pairing', 'fails_within_timeout',
-           'state_visible', 'state_not_overwritten', 'reconnect_rate_limited', 'attempts_atomic', 'callbacks_once', 'polling_resumes']
+CLAUSES = ['multicomm_atomic', 'exchange_atomic', 'delays_honoured', 'stale_discarded', 'reply_pairing', 'fails_within_timeout',
+           'state_visible', 'closed_visible', 'state_not_overwritten', 'reconnect_rate_limited', 'attempts_atomic', 'callbacks_once', 'polling_resumes']
 
 
 def canon_events(events):
@@ -558,7 +718,7 @@ def run(ctx):
     nexplore = ctx.budget(110, 2500)
     for ci, case in enumerate(catalogue()):
         n = 0
-        for prefix, s, out in explore(lambda pol, case=case: one(case, pol), max_preemptions=2, max_runs=nexplore, rng=rng):
+        for prefix, s, out in explore_levels(lambda pol, case=case: one(case, pol), 2, nexplore, rng):
             runs.append((case, [c[1] for c in s.choices], out))
             n += 1
         res.count('catalogue[%d].schedules' % ci, n)
@@ -621,7 +781,10 @@ def run(ctx):
                 seen_sigs[sig] = 1
                 res.violations.append({'sig': sig, 'what': f'run does not terminate normally: {out["sched"]}', 'case': payload})
             continue
-        if ctx.model_ok and not rep['accepted']:
+        for f in ('ident', 'varlen', 'aligned'):
+            if case.get(f):
+                res.count('script.' + f)
+        if ctx.model_ok and modelled(case) and not rep['accepted']:
             bad = evs[rep['at']] if rep['at'] < len(evs) else None
             res.disagreements.append({'case': payload, 'model': {k: rep[k] for k in ('at', 'pc', 'expected_result', 'state')},
                                       'impl': {k: v for k, v in (bad or {}).items() if k not in ('seq', 'tf')}})
